@@ -185,6 +185,64 @@ def multi_file_cases(ctx):
     return out
 
 
+def recursive_file_cases():
+    """recursion that runs through a reference to a whole file (a tree whose children are `tree.json` again; two files that refer to each other), the
+    referenced root with and without a `type`, the file used twice by the referrer: one declared type per file, every level decoded and checked"""
+    out = []
+    n = 0
+
+    def tree_doc(depth, bad_at=None):
+        d = {"name": "n%d" % depth}
+        if bad_at == depth:
+            del d["name"]
+        if depth > 0:
+            d["children"] = [tree_doc(depth - 1, bad_at), tree_doc(0, None)]
+        return d
+    for typed in (False, True):
+        for via in ("items", "property", "map"):
+            tree = {"required": ["name"], "properties": {"name": {"type": "string", "minLength": 1}}}
+            if typed:
+                tree["type"] = "object"
+            if via == "items":
+                tree["properties"]["children"] = {"type": "array", "items": {"$ref": "tree.json"}}
+                wrap = lambda kids: kids
+            elif via == "property":
+                tree["properties"]["children"] = {"$ref": "tree.json"}
+                wrap = lambda kids: kids[0]
+            else:
+                tree["properties"]["children"] = {"type": "object", "additionalProperties": {"$ref": "tree.json"}}
+                wrap = lambda kids: {"k%d" % i: k for i, k in enumerate(kids)}
+
+            def conv(d):
+                if "children" in d:
+                    d = dict(d, children=wrap([conv(x) for x in d["children"]]))
+                return d
+            main = {"$id": "http://x/main", "type": "object", "properties": {"root": {"$ref": "tree.json"}, "spare": {"$ref": "tree.json"}}, "required": ["root"]}
+            docs = []
+            for depth in (0, 1, 2, 4):
+                docs.append({"doc": {"root": conv(tree_doc(depth)), "spare": conv(tree_doc(1))}, "cls": "valid", "path": ("depth", depth), "expect": "ACC"})
+                docs.append({"doc": {"root": conv(tree_doc(depth, bad_at=0))}, "cls": "required", "path": ("depth", depth), "expect": "REJ"})
+                if depth:
+                    docs.append({"doc": {"root": conv(tree_doc(depth)), "spare": conv(tree_doc(depth, bad_at=depth - 1))}, "cls": "required", "path": ("spare", depth), "expect": "REJ"})
+            out.append(Case("c10rf%d" % n, main, docs, fam="recursive-files/%s/%s" % ("typed" if typed else "root-without-type", via), extra_files={"tree.json": json.dumps(tree)}, no_model=True))
+            n += 1
+    # two files that refer to each other
+    for typed in (False, True):
+        a = {"required": ["id"], "properties": {"id": {"type": "integer", "minimum": 1}, "b": {"$ref": "b.json"}}}
+        b = {"required": ["tag"], "properties": {"tag": {"type": "string", "minLength": 2}, "a": {"$ref": "a.json"}}}
+        if typed:
+            a["type"] = b["type"] = "object"
+        main = {"$id": "http://x/main", "type": "object", "properties": {"a": {"$ref": "a.json"}, "b": {"$ref": "b.json"}}}
+        docs = [{"doc": {"a": {"id": 1, "b": {"tag": "tt", "a": {"id": 2, "b": {"tag": "uu"}}}}, "b": {"tag": "vv", "a": {"id": 3}}}, "cls": "valid", "path": (), "expect": "ACC"},
+                {"doc": {"a": {"id": 1, "b": {"tag": "tt", "a": {"id": 0}}}}, "cls": "bound", "path": ("a", "b", "a", "id"), "expect": "REJ"},
+                {"doc": {"a": {"id": 1, "b": {"tag": "tt", "a": {"id": 2, "b": {"tag": "u"}}}}}, "cls": "string", "path": ("a", "b", "a", "b", "tag"), "expect": "REJ"},
+                {"doc": {"b": {"a": {"id": 3}}}, "cls": "required", "path": ("b", "tag"), "expect": "REJ"}]
+        out.append(Case("c10rf%d" % n, main, docs, fam="recursive-files/%s/two-files" % ("typed" if typed else "root-without-type"),
+                        extra_files={"a.json": json.dumps(a), "b.json": json.dumps(b)}, no_model=True))
+        n += 1
+    return out
+
+
 def has_anon_map_value(s):
     """an object schema with properties written inline as the value schema of a property-less object's additionalProperties becomes an anonymous
     struct without unmarshaler (recorded finding C04-anonymous-struct-map-value, D25): the inlined form of such a reference is outside the guard"""
@@ -307,9 +365,26 @@ def run(ctx):
             for d, cls in deep_docs(sc, depth):
                 docs.append({"doc": d, "cls": cls, "path": ("depth", depth)})
         rec.append(Case("c10x%d" % ri, sc, docs, fam="recursive"))
-    allc = [c for p in pairs for c in p] + rec
+    recf = recursive_file_cases()
+    allc = [c for p in pairs for c in p] + rec + recf
     run_cases(ctx, allc, "c10")
     nv = 0
+    for c in recf:
+        if not c.gen_ok or not c.build_ok:
+            if nv < 6:
+                ctx.violation("oracle", dict(c.replay_obj(), gen_err=c.gen_err, build_err=c.build_err), "%s: generation failed or the output does not build: %s" % (c.fam, (c.gen_err or c.build_err)[:300]))
+            nv += 1
+            continue
+        ctx.cov["programs"] += 1
+        for di, d in enumerate(c.docs):
+            o = d.get("obs") or {}
+            ctx.count({"f": c.fam, "d": d["doc"]}, True, c.fam)
+            if o.get("v") != d["expect"]:
+                if nv < 6:
+                    ctx.violation("oracle", c.replay_obj(di), "%s: document %s (%s) should be %s, the generated code answers %s %s" % (
+                        c.fam, json.dumps(d["doc"])[:200], d["cls"], d["expect"], o.get("v"), (o.get("err") or "")[:150]))
+                nv += 1
+                break
     for cr, ci in pairs:
         for c in (cr, ci):
             if not c.gen_ok or not c.build_ok:
